@@ -87,4 +87,196 @@ theorem assignAttnames_fresh (N : Names) (hinj : ∀ o a b, o ++ N.sfx a = o ++ 
       refine ⟨fun hmem => ?_, ih.2⟩
       exact (ih.1 _ hmem).1 (by simp)
 
+/-! ### the concrete suffix `'_' + str(i)`: injective, so the freshness theorems are not vacuous -/
+
+/-- `'_' + str(i)` -/
+def pySfx (i : Nat) : String := "_" ++ toString i
+
+theorem pySfx_inj (o : String) (a b : Nat) (h : o ++ pySfx a = o ++ pySfx b) : a = b := by
+  have h1 := (String.append_right_inj o).mp h
+  unfold pySfx at h1
+  have h2 := (String.append_right_inj "_").mp h1
+  have h3 : (toString a).toList = (toString b).toList := by rw [h2]
+  simp only [Nat.toString_eq_repr, Nat.toList_repr] at h3
+  have := congrArg (fun l => Nat.ofDigitChars 10 l 0) h3
+  simpa [Nat.ofDigitChars_ten_toDigits] using this
+
+/-! ### the generated name is an attribute name: ASCII identifier, no keyword, no leading `_` or digit -/
+
+/-- an ASCII identifier that is no keyword and does not start with `_` (nor with a digit) -/
+def AsciiAttr (a : String) : Prop :=
+  (∃ c rest, a.toList = c :: rest ∧ c.isAlpha = true) ∧ (∀ c ∈ a.toList, isIdentChar c = true) ∧ a ∉ pyKeywords
+
+theorem kw_no_underscore : pyKeywords.all (fun k => !k.toList.contains '_') = true := by decide
+
+theorem not_kw_of_underscore (a : String) (h : '_' ∈ a.toList) : a ∉ pyKeywords := by
+  intro hk
+  have := List.all_eq_true.mp kw_no_underscore a hk
+  simp at this
+  exact this h
+
+theorem subRuns_chars : (cs : List Char) → (b : Bool) → ∀ c ∈ subRuns cs b, isIdentChar c = true
+  | [], _, c, h => by simp [subRuns] at h
+  | x :: rest, b, c, h => by
+    simp only [subRuns] at h
+    by_cases hx : isAlnum x = true
+    · simp only [hx, if_true] at h
+      rcases List.mem_cons.mp h with h1 | h1
+      · subst h1; simp [isIdentChar]; left; simpa [isAlnum] using hx
+      · exact subRuns_chars rest false c h1
+    · simp only [hx, Bool.false_eq_true, if_false] at h
+      cases b with
+      | true => simp only [if_true] at h; exact subRuns_chars rest true c h
+      | false =>
+        simp only [Bool.false_eq_true, if_false] at h
+        rcases List.mem_cons.mp h with h1 | h1
+        · subst h1; simp [isIdentChar]
+        · exact subRuns_chars rest true c h1
+
+theorem stripL_suffix : (cs : List Char) → ∃ p, cs = p ++ stripL cs
+  | [] => ⟨[], by simp [stripL]⟩
+  | c :: rest => by
+    by_cases h : c = '_'
+    · subst h
+      obtain ⟨p, hp⟩ := stripL_suffix rest
+      refine ⟨'_' :: p, ?_⟩
+      simp only [stripL, List.cons_append]
+      rw [← hp]
+    · refine ⟨[], ?_⟩
+      have : stripL (c :: rest) = c :: rest := by
+        unfold stripL
+        split
+        · rename_i heq; cases heq; exact absurd rfl h
+        · rfl
+      rw [this]; rfl
+
+theorem stripL_head : (cs : List Char) → ∀ c rest, stripL cs = c :: rest → c ≠ '_'
+  | [], c, rest, h => by simp [stripL] at h
+  | x :: xs, c, rest, h => by
+    by_cases hx : x = '_'
+    · subst hx
+      simp only [stripL] at h
+      exact stripL_head xs c rest h
+    · have : stripL (x :: xs) = x :: xs := by
+        unfold stripL
+        split
+        · rename_i heq; cases heq; exact absurd rfl hx
+        · rfl
+      rw [this] at h
+      cases h
+      exact hx
+
+/-- `strip('_')`: a sublist that does not start with `_` -/
+theorem strip_props (cs : List Char) : (∀ c ∈ strip cs, c ∈ cs) ∧ ∀ c rest, strip cs = c :: rest → c ≠ '_' := by
+  unfold strip
+  obtain ⟨p, hp⟩ := stripL_suffix cs
+  obtain ⟨q, hq⟩ := stripL_suffix (stripL cs).reverse
+  -- stripL cs = (stripL (stripL cs).reverse).reverse ++ q.reverse
+  have hd : stripL cs = (stripL (stripL cs).reverse).reverse ++ q.reverse := by
+    have := congrArg List.reverse hq
+    simpa using this
+  constructor
+  · intro c hc
+    rw [hp]
+    apply List.mem_append_right
+    rw [hd]
+    exact List.mem_append_left _ hc
+  · intro c rest h
+    rw [h] at hd
+    exact stripL_head cs c (rest ++ q.reverse) (by simpa using hd)
+
+theorem isIdentChar_of_alnum (c : Char) (h : c.isAlphanum = true) : isIdentChar c = true := by
+  simp [isIdentChar, h]
+
+/-- the name before the collision loop is an attribute name -/
+theorem sanitize_attr (name : String) : AsciiAttr (sanitize name) := by
+  -- the characters after substitution and stripping
+  have hchars : ∀ c ∈ strip (subRuns name.toList false), isIdentChar c = true :=
+    fun c hc => subRuns_chars _ _ c ((strip_props _).1 c hc)
+  have hhead := (strip_props (subRuns name.toList false)).2
+  -- the list the name is made of
+  have key : ∃ cs : List Char, (∃ c rest, cs = c :: rest ∧ c.isAlpha = true) ∧ (∀ c ∈ cs, isIdentChar c = true) ∧
+      sanitize name = (if pyKeywords.contains (String.ofList cs) then String.ofList cs ++ "_value" else String.ofList cs) := by
+    unfold sanitize
+    simp only
+    cases hs : strip (subRuns name.toList false) with
+    | nil =>
+      refine ⟨"field_".toList, ⟨'f', "ield_".toList, by decide, by decide⟩, ?_, rfl⟩
+      intro c hc
+      have : c ∈ ['f', 'i', 'e', 'l', 'd', '_'] := by simpa using hc
+      simp at this
+      rcases this with rfl | rfl | rfl | rfl | rfl | rfl <;> decide
+    | cons c rest =>
+      by_cases hdig : c.isDigit = true
+      · refine ⟨"field_".toList ++ c :: rest, ⟨'f', "ield_".toList ++ c :: rest, by rfl, by decide⟩, ?_, by simp [hdig]⟩
+        intro x hx
+        rcases List.mem_append.mp hx with h | h
+        · have : x ∈ ['f', 'i', 'e', 'l', 'd', '_'] := by simpa using h
+          simp at this
+          rcases this with rfl | rfl | rfl | rfl | rfl | rfl <;> decide
+        · exact hchars x (by rw [hs]; exact h)
+      · refine ⟨c :: rest, ⟨c, rest, rfl, ?_⟩, fun x hx => hchars x (by rw [hs]; exact hx), by simp [hdig]⟩
+        -- an identifier character that is neither `_` nor a digit is a letter
+        have h1 := hchars c (by rw [hs]; simp)
+        have h2 := hhead c rest hs
+        simp only [isIdentChar, Char.isAlphanum, Bool.or_eq_true, beq_iff_eq] at h1
+        rcases h1 with (h | h) | h
+        · exact h
+        · exact absurd h hdig
+        · exact absurd h h2
+  obtain ⟨cs, ⟨c, rest, hcs, halpha⟩, hall, hsan⟩ := key
+  rw [hsan]
+  by_cases hk : pyKeywords.contains (String.ofList cs) = true
+  · rw [if_pos hk]
+    refine ⟨⟨c, rest ++ "_value".toList, ?_, halpha⟩, ?_, ?_⟩
+    · simp [String.toList_append, String.toList_ofList, hcs]
+    · intro x hx
+      simp only [String.toList_append, String.toList_ofList, List.mem_append] at hx
+      rcases hx with h | h
+      · exact hall x h
+      · have : x ∈ ['_', 'v', 'a', 'l', 'u', 'e'] := by simpa using h
+        simp at this
+        rcases this with rfl | rfl | rfl | rfl | rfl | rfl <;> decide
+    · apply not_kw_of_underscore
+      simp [String.toList_append]
+  · rw [if_neg hk]
+    refine ⟨⟨c, rest, by simp [String.toList_ofList, hcs], halpha⟩, ?_, by simpa using hk⟩
+    intro x hx
+    exact hall x (by simpa [String.toList_ofList] using hx)
+
+theorem firstFree_form (sfx : Nat → String) (origin : String) (excludes : List String) :
+    (fuel i : Nat) → ∃ m, firstFree sfx origin excludes fuel i = origin ++ sfx m
+  | 0, i => ⟨i, rfl⟩
+  | fuel + 1, i => by
+    simp only [firstFree]
+    split
+    · exact firstFree_form sfx origin excludes fuel (i + 1)
+    · exact ⟨i, rfl⟩
+
+/-- a suffixed attribute name is one -/
+theorem attr_suffix (a : String) (h : AsciiAttr a) (m : Nat) : AsciiAttr (a ++ pySfx m) := by
+  obtain ⟨⟨c, rest, hc, halpha⟩, hall, _⟩ := h
+  refine ⟨⟨c, rest ++ (pySfx m).toList, by simp [String.toList_append, hc], halpha⟩, ?_, ?_⟩
+  · intro x hx
+    simp only [String.toList_append, List.mem_append] at hx
+    rcases hx with h | h
+    · exact hall x h
+    · simp only [pySfx, String.toList_append, Nat.toString_eq_repr, Nat.toList_repr, List.mem_append] at h
+      rcases h with h | h
+      · have : x = '_' := by simpa using h
+        subst this; decide
+      · have := Nat.isDigit_of_mem_toDigits (by decide) (by decide) h
+        simp [isIdentChar, Char.isAlphanum, this]
+  · apply not_kw_of_underscore
+    simp [String.toList_append, pySfx]
+
+theorem getAttname_attr (name : String) (excludes : List String) : AsciiAttr (getAttname pySfx name excludes) := by
+  unfold getAttname
+  simp only
+  split
+  · obtain ⟨m, hm⟩ := firstFree_form pySfx (sanitize name) excludes excludes.length 1
+    rw [hm]
+    exact attr_suffix _ (sanitize_attr name) m
+  · exact sanitize_attr name
+
 end Utv.C15
